@@ -27,6 +27,14 @@ CHECKS = {
    technique="explicit-state BFS plus an exhaustive probe set (all 256 message types x server-id shapes x interfaces) applied to every reachable state up to the probe depth",
    text="Every reachable store up to the probe depth is hit with every message-type value, malformed type options and server-id shapes; replies only for DISCOVER/REQUEST-for-us, unchanged store otherwise, echo fields and server identifier on every reply.",
    note="A server-identifier option whose length is not 4 is treated as don't-care (the statement does not define it)."),
+ "C12": dict(level="exploration", engine="E-ENUM", design="5/C12",
+   technique="bounded-exhaustive enumeration: all 65536 flag values, all payload lengths 0..1472, option-length/header products, against independent RFC 2131/3396 and Ethernet/IPv4/UDP decoders",
+   text="The flag predicate is decided for every 16-bit value; frame construction for every payload length; encode/decode for the full product of boundary header/field lengths and all option sets of size <=3 over boundary value lengths (0..1500), each encoding also read by an independent decoder, plus hand-encoded repeated/zero-length/padded option wire images.",
+   note="The broadcast-vs-unicast destination choice sits inline in DhcpService::recvdhcp behind a raw socket and is not executed; only its predicate is. A transmitted UDP checksum 0 is accepted."),
+ "C14": dict(level="exploration", engine="E-ENUM", design="5/C14",
+   technique="bounded-exhaustive enumeration of structured messages (name-sharing patterns, every first-written offset around 0x4000 and 0xffxx) and single-octet-exhaustive mutations of their encodings, through the real parser/serialiser and an independent strict decoder",
+   text="Every structured message of the grammar and every accepted mutated byte string is encoded by the real serialiser, decoded by the real parser (must equal) and by an independent strict decoder (counts, no trailing octets, pointers strictly backwards and < 0x4000, RDLENGTH = typed rdata).",
+   note="Names over 3 labels {a,b,63x'x'} up to depth 3; messages up to 65535 octets only in the boundary family; the 255-octet name limit is recorded, not judged."),
 }
 
 NOT_YET = {
